@@ -140,6 +140,18 @@ CHECKS = {
         text="Every code point 0..0x17f alone, every special character x hex/other neighbours, escape look-alikes and random strings and bytes through every helper/mode incl. f-string/template composition; ~60-110k read-backs quick, ~1.4M thorough.",
         note="C#/Go judged by spec decoders (no toolchain); narrow C++ literal judged on ASCII only (its precondition); needs_escaping judged only in the False direction.",
     ),
+    "C20": dict(
+        category="exploration",
+        technique="one hostile payload per category of text-bearing places (all docutils constructs the front end dispatches on) x 8 targets; every generated file to an independent parser (CPython ast, javac parser, node type transform + V8 module compile, g++ -fsyntax-only/-E, json, expat, spec-derived C#/Go lexers, expat over C# doc comments) with payload-free baseline subtraction",
+        text="About 230 (quick) / 1 700 (thorough) variants planned, each planting one payload (comment/quote terminators, escapes, line separators ...) into descriptions, invariant messages, constants or enum values; thousands of generated files are parsed per language.",
+        note="C#/Go judged by lexers only (no toolchain); C++ counts only lexical and 'expected ...' diagnostics; jsonization.cpp and tests are only preprocessed; known finding: Unicode line separators in string values.",
+    ),
+    "C21": dict(
+        category="exploration",
+        technique="near-collision model vs renamed control, differential declaration counts per scope (ast, duplicate-key JSON, XSD tables, token-stream scanners for C#/Go/TS/Java/C++) plus javac attribution, g++ and V8 as redefinition detectors; absolute duplicate check on the collision-free control",
+        text="133 (quick) / ~230 (thorough) scenarios x 8 targets: pairs of types, properties, methods, literals, constants, functions differing only in case/underscores or colliding with derived names; either the run reports a collision (exit != 0) or no scope declares one name twice.",
+        note="Collisions with fixed SDK helper names are out of scope; module-level names (constants, functions, derived names) are never collision-checked by the pinned generators: listed in known_findings.json.",
+    ),
     "C22": dict(
         category="exploration",
         technique="differential repeated real CLI subprocess runs vs a reference under varied PYTHONHASHSEED, output-directory history, snippet creation order, shuffled directory listings (sitecustomize shim) and cold/warm model cache",
